@@ -2,6 +2,7 @@ import GeoVerif.Model.MathF
 import GeoVerif.Proofs.F64Val
 import GeoVerif.Proofs.TwoSum
 import GeoVerif.Model.Accum
+import GeoVerif.Proofs.Accum
 import Mathlib.Analysis.SpecialFunctions.Trigonometric.Basic
 import Mathlib.Tactic.Ring
 import Mathlib.Tactic.Linarith
@@ -409,6 +410,228 @@ example : (match add ⟨.fin false 1 53, 0⟩ (.fin false 1 0) with
     | ⟨s, t⟩ => F64.same s (.fin false 1 53) && F64.same t (.fin false 1 0)) = true := by decide +kernel
 
 end Accumulator
+
+/-! ## The accumulator as a state machine over the exact binary64 model
+
+`Accum.step` / `Accum.run` (`Model/Accum.lean`) are the functions the driver executes against `Accumulator<double>` after every
+operation of every sampled history. -/
+section AccumulatorHistory
+open GeoVerif.Accum
+
+theorem isRep_neg (y : F64) (h : F64.IsRep y) : F64.IsRep (F64.neg y) ∧ (F64.neg y).val = -y.val := by
+  obtain ⟨s, m, e, rfl⟩ := F64.exists_fin_of_isFinite y h.1
+  exact ⟨F64.IsRep.neg_fin s m e h, F64.neg_fin_val s m e⟩
+
+/-- **`remainder` renormalises** (seeded change C16F).  For every representable state `(_s, _t)` and every representable
+non-zero modulus `y` (no overflow): straight after `remainder(y)`
+* the reported value `operator()()` is the held sum `_s + _t` **rounded to working precision** (and `_t` is the exact rest),
+* the held sum has changed by exactly `n·y`, `n = remquo(_s, y)` the integer nearest to `_s / y` — nothing is lost,
+* the held sum lies in `[−|y|/2, |y|/2]` up to the old low word (the header's range, observation O3 of DESIGN §12.5). -/
+theorem remainder_renormalises (a : Acc) (y : F64) (hs : F64.IsRep a.s) (ht : F64.IsRep a.t) (hy : F64.IsRep y) (hy0 : y.val ≠ 0)
+    (bs : |a.s.val| ≤ (2:ℚ) ^ (1017:ℤ)) (bt : |a.t.val| ≤ (2:ℚ) ^ (1017:ℤ)) :
+    F64.IsRep (Accum.remainder a y).s ∧ F64.IsRep (Accum.remainder a y).t ∧
+    RN ((Accum.remainder a y).s.val + (Accum.remainder a y).t.val) (report (Accum.remainder a y)).val ∧
+    (Accum.remainder a y).s.val + (Accum.remainder a y).t.val = a.s.val + a.t.val - (F64.remquoN a.s y : ℚ) * y.val ∧
+    |(Accum.remainder a y).s.val + (Accum.remainder a y).t.val| ≤ |y.val| / 2 + |a.t.val| := by
+  obtain ⟨sx, mx, ex, hsx⟩ := F64.exists_fin_of_isFinite a.s hs.1
+  obtain ⟨sy, my, ey, hyy⟩ := F64.exists_fin_of_isFinite y hy.1
+  have hmy : my ≠ 0 := by
+    rintro rfl; apply hy0; rw [hyy]; exact F64.val_fin_zero sy ey
+  have hsr : F64.IsRep (F64.fin sx mx ex) := hsx ▸ hs
+  have hyr : F64.IsRep (F64.fin sy my ey) := hyy ▸ hy
+  obtain ⟨hrrep, hrle, hrhalf⟩ := F64.remainder_rep sx sy mx my ex ey hmy hsr hyr
+  obtain ⟨_, hval, _, _⟩ := F64.remainder_spec sx sy mx my ex ey hmy
+  have hdef : Accum.remainder a y = add ⟨F64.remainder (F64.fin sx mx ex) (F64.fin sy my ey), a.t⟩ 0 := by
+    show add ⟨F64.remainder a.s y, a.t⟩ 0 = _; rw [hsx, hyy]
+  have bsr : |(F64.remainder (F64.fin sx mx ex) (F64.fin sy my ey)).val| ≤ (2:ℚ) ^ (1017:ℤ) := by
+    refine le_trans hrle ?_; rw [← hsx]; exact bs
+  obtain ⟨r1, r2, hsum, hrn⟩ := add_zero_renorm ⟨F64.remainder (F64.fin sx mx ex) (F64.fin sy my ey), a.t⟩ hrrep ht bsr bt
+  rw [hdef]
+  simp only [] at hsum hrn
+  refine ⟨r1, r2, ?_, ?_, ?_⟩
+  · show RN _ (Accum.add _ 0).s.val; rw [hsum]; exact hrn
+  · rw [hsum, hval, hsx, hyy]; ring
+  · rw [hsum]
+    have h1 := abs_add_le (F64.remainder (F64.fin sx mx ex) (F64.fin sy my ey)).val a.t.val
+    have : |(F64.remainder (F64.fin sx mx ex) (F64.fin sy my ey)).val| ≤ |y.val| / 2 := by rw [hyy]; linarith
+    linarith
+
+/-- one step of the state machine: representability is preserved and the held value follows the exact semantics of the
+operation up to `addErr` (the rounding of `_t += u`, only for `+=` / `-=`) -/
+theorem accum_step_spec (a : Acc) (op : Op) (v e : ℚ) (hs : F64.IsRep a.s) (ht : F64.IsRep a.t) (hr : InRange a) (hop : OpOk op)
+    (hv : |hval a - v| ≤ e) :
+    F64.IsRep (step a op).s ∧ F64.IsRep (step a op).t ∧
+    |hval (step a op) - (trackStep a (v, e) op).1| ≤ (trackStep a (v, e) op).2 := by
+  have hadd : ∀ y : F64, F64.IsRep y → |y.val| ≤ (2:ℚ) ^ (1016:ℤ) →
+      F64.IsRep (add a y).s ∧ F64.IsRep (add a y).t ∧ |hval (add a y) - (hval a + y.val)| ≤ addErr a y := by
+    intro y hy hyb
+    obtain ⟨_, r1, r2, hex, herr⟩ := accum_add_step a y hs ht hy hr.1 hr.2 hyb
+    refine ⟨r1, r2, ?_⟩
+    unfold addErr
+    simp only []
+    by_cases h0 : (MathF.sum (MathF.sum y a.t).1 a.s).1.val = 0
+    · rw [if_pos h0]
+      have := hex h0
+      unfold hval; rw [this]; simp
+    · rw [if_neg h0]; exact herr
+  cases op with
+  | set y =>
+    refine ⟨hop.1, F64.isRep_zero, ?_⟩
+    show |(y.val + (0 : F64).val) - y.val| ≤ 0
+    rw [F64.val_zero]; simp
+  | add y =>
+    obtain ⟨r1, r2, h⟩ := hadd y hop.1 hop.2
+    refine ⟨r1, r2, ?_⟩
+    show |hval (add a y) - (v + y.val)| ≤ e + addErr a y
+    have : hval (add a y) - (v + y.val) = (hval (add a y) - (hval a + y.val)) + (hval a - v) := by ring
+    rw [this]
+    exact le_trans (abs_add_le _ _) (by linarith)
+  | sub y =>
+    obtain ⟨hn, hnv⟩ := isRep_neg y hop.1
+    obtain ⟨r1, r2, h⟩ := hadd (F64.neg y) hn (by rw [hnv, abs_neg]; exact hop.2)
+    refine ⟨r1, r2, ?_⟩
+    show |hval (add a (F64.neg y)) - (v - y.val)| ≤ e + addErr a (F64.neg y)
+    rw [hnv] at h
+    have : hval (add a (F64.neg y)) - (v - y.val) = (hval (add a (F64.neg y)) - (hval a + -y.val)) + (hval a - v) := by ring
+    rw [this]
+    exact le_trans (abs_add_le _ _) (by linarith)
+  | neg =>
+    obtain ⟨h1, h1v⟩ := isRep_neg a.s hs
+    obtain ⟨h2, h2v⟩ := isRep_neg a.t ht
+    refine ⟨h1, h2, ?_⟩
+    show |((F64.neg a.s).val + (F64.neg a.t).val) - -v| ≤ e
+    rw [h1v, h2v]
+    have : -a.s.val + -a.t.val - -v = -(hval a - v) := by unfold hval; ring
+    rw [this, abs_neg]; exact hv
+  | rem y =>
+    obtain ⟨r1, r2, _, hsum, _⟩ := remainder_renormalises a y hs ht hop.1 hop.2
+      (le_trans hr.1 (Dy.two_zpow_le (by norm_num))) (le_trans hr.2 (Dy.two_zpow_le (by norm_num)))
+    refine ⟨r1, r2, ?_⟩
+    show |hval (Accum.remainder a y) - (v - (F64.remquoN a.s y : ℚ) * y.val)| ≤ e
+    unfold hval at hv ⊢
+    rw [hsum]
+    have : a.s.val + a.t.val - (F64.remquoN a.s y : ℚ) * y.val - (v - (F64.remquoN a.s y : ℚ) * y.val) = a.s.val + a.t.val - v := by ring
+    rw [this]; exact hv
+  | nop => exact ⟨hs, ht, hv⟩
+  | mulInt n => exact absurd hop (by simp [OpOk])
+  | mulF y => exact absurd hop (by simp [OpOk])
+
+/-- **The accumulator holds the sum** (property C16, last sentence) — an invariant over *all* histories of `=`, `+=`, `-=`,
+negation, `remainder` and the `const` members, by induction over the operation list.  If no intermediate state overflows
+(`NoOverflow`), then after the whole history both words are representable and the held value `_s + _t` differs from the
+exact rational value of the same history (`track … .1`) by at most the sum of the single roundings `_t += u` of its `+=` / `-=`
+steps (`track … .2`; each is second order, see `addErr_second_order`).  `=`, negation and `remainder` contribute nothing. -/
+theorem accum_history (ops : List Op) : ∀ (a : Acc) (v e : ℚ), F64.IsRep a.s → F64.IsRep a.t → NoOverflow a ops → |hval a - v| ≤ e →
+    F64.IsRep (run a ops).s ∧ F64.IsRep (run a ops).t ∧ |hval (run a ops) - (track a (v, e) ops).1| ≤ (track a (v, e) ops).2 := by
+  induction ops with
+  | nil => intro a v e hs ht _ hv; exact ⟨hs, ht, hv⟩
+  | cons op ops ih =>
+    intro a v e hs ht hno hv
+    obtain ⟨hr, hop, hrest⟩ := hno
+    obtain ⟨s1, t1, h1⟩ := accum_step_spec a op v e hs ht hr hop hv
+    rw [run_cons]
+    exact ih (step a op) (trackStep a (v, e) op).1 (trackStep a (v, e) op).2 s1 t1 hrest h1
+
+/-- histories without `+=` / `-=` are tracked **exactly** -/
+def noAdd : Op → Bool
+  | .add _ => false
+  | .sub _ => false
+  | _ => true
+
+theorem track_err_noAdd (ops : List Op) : ∀ (a : Acc) (v e : ℚ), 0 ≤ e → (∀ op ∈ ops, noAdd op = true) → (track a (v, e) ops).2 ≤ e := by
+  induction ops with
+  | nil => intro a v e _ _; exact le_refl _
+  | cons op ops ih =>
+    intro a v e he h
+    have hop := h op (by simp)
+    have hrest : ∀ o ∈ ops, noAdd o = true := fun o ho => h o (by simp [ho])
+    show (track (step a op) (trackStep a (v, e) op) ops).2 ≤ e
+    cases op with
+    | add y => simp [noAdd] at hop
+    | sub y => simp [noAdd] at hop
+    | set y => exact le_trans (ih _ _ 0 (le_refl _) hrest) he
+    | neg => exact ih _ _ _ he hrest
+    | rem y => exact ih _ _ _ he hrest
+    | nop => exact ih _ _ _ he hrest
+    | mulInt n => exact ih _ _ _ he hrest
+    | mulF y => exact ih _ _ _ he hrest
+
+/-- histories of `=`, negation, `remainder` and `const` members only: the held value is **exactly** the value of the history -/
+theorem accum_history_exact (ops : List Op) (a : Acc) (hs : F64.IsRep a.s) (ht : F64.IsRep a.t) (hno : NoOverflow a ops)
+    (h : ∀ op ∈ ops, noAdd op = true) : hval (run a ops) = (track a (hval a, 0) ops).1 := by
+  obtain ⟨_, _, h1⟩ := accum_history ops a (hval a) 0 hs ht hno (by simp)
+  have h2 := track_err_noAdd ops a (hval a) 0 (le_refl _) h
+  have h3 : |hval (run a ops) - (track a (hval a, 0) ops).1| ≤ 0 := le_trans h1 h2
+  have := abs_nonpos_iff.mp h3
+  linarith
+
+/-- **the error of one `Add` is second order**: `addErr ≤ 2^(−104)·(|_s| + |_t| + |y|) + 2^(−1075)` — "roughly twice working
+precision" relative to the magnitudes that entered the step -/
+theorem addErr_second_order (a : Acc) (y : F64) (hs : F64.IsRep a.s) (ht : F64.IsRep a.t) (hy : F64.IsRep y)
+    (bs : |a.s.val| ≤ (2:ℚ) ^ (1016:ℤ)) (bt : |a.t.val| ≤ (2:ℚ) ^ (1016:ℤ)) (by' : |y.val| ≤ (2:ℚ) ^ (1016:ℤ)) :
+    addErr a y ≤ (|a.s.val| + |a.t.val| + |y.val|) * (2:ℚ) ^ (-(104:ℤ)) + (2:ℚ) ^ (-(1075:ℤ)) := by
+  obtain ⟨_, pf1, pf2, pr1, prep2, psum⟩ := F64.twoSum_exact y a.t hy ht (le_1018 by' (by norm_num)) (le_1018 bt (by norm_num))
+  have pb1 : |(MathF.sum y a.t).1.val| ≤ (2:ℚ) ^ (1017:ℤ) :=
+    RN.abs_le_zpow pr1 1017 (by norm_num) (F64.bound_add by' bt (by norm_num) (by norm_num))
+  have hp1 : F64.IsRep (MathF.sum y a.t).1 := ⟨pf1, pr1.rep⟩
+  obtain ⟨_, qf1, qf2, qr1, qrep2, qsum⟩ := F64.twoSum_exact (MathF.sum y a.t).1 a.s hp1 hs (le_1018 pb1 (by norm_num)) (le_1018 bs (by norm_num))
+  set p1 := (MathF.sum y a.t).1.val with hp1d
+  set p2 := (MathF.sum y a.t).2.val with hp2d
+  set q1 := (MathF.sum (MathF.sum y a.t).1 a.s).1.val with hq1d
+  set q2 := (MathF.sum (MathF.sum y a.t).1 a.s).2.val with hq2d
+  have e2 : ((-1074:ℤ) - 1) = -1075 := by norm_num
+  have herr1 := pr1.err
+  have herr2 := qr1.err
+  rw [e2] at herr1 herr2
+  have hw : (0:ℚ) < (2:ℚ) ^ (-(1075:ℤ)) := Dy.two_zpow_pos _
+  have hu : (2:ℚ) ^ (-((53:ℕ):ℤ)) = 1 / 9007199254740992 := by norm_num
+  have hu' : (2:ℚ) ^ (-(53:ℤ)) = 1 / 9007199254740992 := by norm_num
+  have h104 : (2:ℚ) ^ (-(104:ℤ)) = 1 / 20282409603651670423947251286016 := by norm_num
+  rw [hu] at herr1 herr2
+  have hP2 : |p2| ≤ (|y.val| + |a.t.val|) * (1 / 9007199254740992) + (2:ℚ) ^ (-(1075:ℤ)) := by
+    have e : p2 = -(p1 - (y.val + a.t.val)) := by linarith
+    rw [e, abs_neg]
+    refine le_trans herr1 (max_le ?_ (by nlinarith [abs_nonneg y.val, abs_nonneg a.t.val]))
+    have := abs_add_le y.val a.t.val
+    nlinarith [abs_nonneg (y.val + a.t.val)]
+  have hP1 : |p1| ≤ |y.val| + |a.t.val| + |p2| := by
+    have e : p1 = (y.val + a.t.val) + -p2 := by linarith
+    rw [e]
+    have h1 := abs_add_le (y.val + a.t.val) (-p2)
+    have h2 := abs_add_le y.val a.t.val
+    rw [abs_neg] at h1; linarith
+  have hQ2 : |q2| ≤ (|p1| + |a.s.val|) * (1 / 9007199254740992) + (2:ℚ) ^ (-(1075:ℤ)) := by
+    have e : q2 = -(q1 - (p1 + a.s.val)) := by linarith
+    rw [e, abs_neg]
+    refine le_trans herr2 (max_le ?_ (by nlinarith [abs_nonneg p1, abs_nonneg a.s.val]))
+    have := abs_add_le p1 a.s.val
+    nlinarith [abs_nonneg (p1 + a.s.val)]
+  unfold addErr
+  simp only []
+  rw [← hq1d]
+  have hnn : (0:ℚ) ≤ (|a.s.val| + |a.t.val| + |y.val|) * (2:ℚ) ^ (-(104:ℤ)) := by
+    rw [h104]; nlinarith [abs_nonneg a.s.val, abs_nonneg a.t.val, abs_nonneg y.val]
+  by_cases h0 : q1 = 0
+  · rw [if_pos h0]; linarith
+  · rw [if_neg h0, hu', h104]
+    refine max_le ?_ (by rw [h104] at hnn; linarith)
+    have h3 := abs_add_le q2 p2
+    rw [← hq2d, ← hp2d]
+    generalize (2:ℚ) ^ (-(1075:ℤ)) = w at *
+    nlinarith [abs_nonneg q2, abs_nonneg p2, abs_nonneg p1, abs_nonneg a.s.val, abs_nonneg a.t.val, abs_nonneg y.val]
+
+/-- non-vacuity: the history `= 1; += 3·2^-54; -= 1; negate; remainder(360); operator()()` from the default-constructed accumulator
+satisfies every hypothesis of `accum_history` (decided on the exact model), and it is the cancellation of observation O2 -/
+example : NoOverflow (set 0) [.set (.fin false 1 0), .add (.fin false 3 (-54)), .sub (.fin false 1 0), .neg, .rem (.fin false 360 0), .nop] :=
+  noOverflow_of_B _ _ (by decide +kernel)
+example : F64.IsRep (set 0).s ∧ F64.IsRep (set 0).t := ⟨F64.isRep_zero, F64.isRep_zero⟩
+/-- non-vacuity of `remainder_renormalises`: state (360·2^53, 100), modulus 360 (the witness of seeded change C16F): the model
+reports 100 -/
+example : F64.same (report (Accum.remainder ⟨.fin false 360 53, .fin false 100 0⟩ (.fin false 360 0))) (.fin false 100 0) = true := by
+  decide +kernel
+example : repB (.fin false 360 53) = true ∧ repB (.fin false 100 0) = true ∧ repB (.fin false 360 0) = true := by decide +kernel
+
+end AccumulatorHistory
 
 /-! ## `atan2d`: the octant scheme is correct over ℝ -/
 
